@@ -8,7 +8,7 @@ from vf.core import D, SECTOR, T, Z, Layer, PatternGen, SparseFile
 
 def footer(size: int, data_offset: int, disk_type: int, uid: bytes, legacy: bool = False, orig_size=None,
            timestamp: int = 0, creator_app: bytes = b"vf  ", creator_os: bytes = b"Wi2k", geometry: int = 0,
-           temporary: bool = False, info_rng=None) -> bytes:
+           temporary: bool = False, info_rng=None, force_creator: bytes | None = None) -> bytes:
     # features: bit 1 is reserved and always set by writers of the 512-byte footer, bit 0 marks a temporary disk
     features = 0 if legacy else (3 if temporary else 2)
     saved_state = 0
@@ -19,6 +19,11 @@ def footer(size: int, data_offset: int, disk_type: int, uid: bytes, legacy: bool
         creator_os = info_rng.choice([b"Wi2k", b"Mac ", b"\0\0\0\0"])
         geometry = info_rng.getrandbits(32)
         saved_state = info_rng.choice([0, 1])
+    if force_creator is not None:
+        # e.g. "vpc " with the largest geometry Virtual PC can express (65535 x 16 x 255 sectors, a little under 127.5 GiB):
+        # creator and geometry are informational, the current-size field is the size
+        creator_app = force_creator
+        geometry = (65535 << 16) | (16 << 8) | 255
     f = struct.pack(">8sIIQI4sI4sQQII", b"conectix", features, 0x00010000, data_offset, timestamp, creator_app,
                     0x00050000, creator_os, size if orig_size is None else orig_size, size, geometry, disk_type)
     body = f + struct.pack(">I", 0) + uid + bytes([saved_state]) + b"\0" * 427
@@ -29,7 +34,7 @@ def footer(size: int, data_offset: int, disk_type: int, uid: bytes, legacy: bool
 
 
 def build_fixed(rng, *, nsectors: int, legacy: bool = False, tag: int = 1, kind: int = 0, nested: str | None = None, orig_size=None,
-                uid: bytes | None = None):
+                uid: bytes | None = None, creator: bytes | None = None):
     """nested: guest content that itself starts like a VHD ('dynamic' footer copy / 'fixed' footer) at LBA 0."""
     size = nsectors * SECTOR
     layer = Layer(size, max(nsectors, 1), tag, kind, default=D)
@@ -46,7 +51,7 @@ def build_fixed(rng, *, nsectors: int, legacy: bool = False, tag: int = 1, kind:
     sf = SparseFile()
     if nsectors:
         sf.put(0, PatternGen(layer, 0, nsectors))
-    sf.put(size, footer(size, 0xFFFFFFFFFFFFFFFF, 2, uid, legacy=legacy, orig_size=orig_size, temporary=rng.random() < 0.3, info_rng=rng))
+    sf.put(size, footer(size, 0xFFFFFFFFFFFFFFFF, 2, uid, legacy=legacy, orig_size=orig_size, temporary=rng.random() < 0.3, info_rng=rng, force_creator=creator))
     meta = {"size": size, "uid": uid.hex(), "legacy": legacy, "metadata_bytes": 512}
     return sf, layer, meta
 
@@ -54,7 +59,7 @@ def build_fixed(rng, *, nsectors: int, legacy: bool = False, tag: int = 1, kind:
 def build_dynamic(rng, *, block_size: int, nblocks: int, tail_cut_sectors: int = 0, states=None,
                   placement: str = "shuffle", tag: int = 1, kind: int = 0, bitmaps: str = "ones",
                   header_off: int = 512, table_gap: int = 0, extra_entries: int = 0, far_sector: int = 0, orig_size=None, uid: bytes | None = None,
-                  table_place: str = "front", stale_copy: bool = False):
+                  table_place: str = "front", stale_copy: bool = False, creator: bytes | None = None):
     """states[i] in {'A','U'}; bitmaps in ones|random|zeros (data under 0 bits is stored as zeros).
     table_place: front (header, BAT, blocks), behind (header, blocks, BAT) or middle (BAT between the blocks): all
     offsets in the format are absolute, the table may sit anywhere."""
@@ -116,7 +121,7 @@ def build_dynamic(rng, *, block_size: int, nblocks: int, tail_cut_sectors: int =
             pos[j] = top
     uid = uid or bytes(rng.randrange(256) for _ in range(16))
     sf = SparseFile()
-    ft = footer(size, header_off, 3, uid, orig_size=orig_size, temporary=rng.random() < 0.3, info_rng=rng)
+    ft = footer(size, header_off, 3, uid, orig_size=orig_size, temporary=rng.random() < 0.3, info_rng=rng, force_creator=creator)
     if stale_copy:
         # the copy at the start of the file was not rewritten when the disk was last resized / re-identified: only the
         # footer at the end of the file is authoritative (both carry valid checksums)
